@@ -1,4 +1,5 @@
 import GapicModel.Model.Lro
+import GapicModel.Pinned.Funcs
 /-
 C08 — long-running methods return futures typed by google.longrunning.operation_info.
 -/
@@ -428,5 +429,33 @@ theorem leading_dot_counterexample :
       = .error (.keyError ".acme.lib.v1.Book".toList) := by decide
 
 end Examples
+
+/-! ## `resolve` IS the code's current `Address.resolve`
+`Pinned.Funcs.address_resolve` is the Lean translation of `gapic/schema/metadata.py: Address.resolve` produced by
+harness/pyfun2lean.py; `Bridge.Funcs.address_resolve` re-proves on every run that translating /repo's current source
+gives the same definition. -/
+
+section Translated
+open GapicModel.PyRt
+
+theorem contains_dot (s : List Char) : PyRt.contains ['.'] s = s.contains '.' := by
+  induction s with
+  | nil => simp [PyRt.contains]
+  | cons c cs ih =>
+    have hp : List.isPrefixOf ['.'] (c :: cs) = (c == '.') := by
+      simp only [List.isPrefixOf, Bool.and_true]
+      rw [Bool.eq_iff_iff]; simp only [beq_iff_eq]; exact eq_comm
+    rw [PyRt.contains, hp, ih, List.contains_cons]
+    rw [Bool.eq_iff_iff]; simp only [Bool.or_eq_true, beq_iff_eq]
+    constructor
+    · rintro (h | h); exact Or.inl h.symm; exact Or.inr h
+    · rintro (h | h); exact Or.inl h.symm; exact Or.inr h
+
+theorem resolve_is_translated (pkg : List (List Char)) (sel : List Char) :
+    GapicModel.Model.Lro.resolve (PyRt.join ['.'] pkg) sel = Pinned.Funcs.address_resolve pkg sel := by
+  simp only [GapicModel.Model.Lro.resolve, Pinned.Funcs.address_resolve, contains_dot]
+  cases h : sel.contains '.' <;> simp
+
+end Translated
 
 end GapicModel.Props.C08
